@@ -231,6 +231,9 @@ class CallMixin:
                 return ModuleRef(sub)
             raise PyRaise("AttributeError", (o.name, name))
         if isinstance(o, ExtRef):
+            consts = getattr(self, "ext_consts", None)
+            if consts and f"{o.path}.{name}" in consts:
+                return consts[f"{o.path}.{name}"]
             return ExtRef(f"{o.path}.{name}")
         if isinstance(o, UVal):
             return self.uval_getattr(o, name, default)
